@@ -159,7 +159,11 @@ func (s *RedundantScope) handleVarassign(mkline *MkLine, ind *Indentation) {
 			//
 			// Except when this line has the same value as the guaranteed
 			// current value of the variable. Then it is redundant.
-			if info.vari.IsConstant() && info.vari.ConstantValue() == mkline.Value() {
+			//
+			// A default assignment only replaces the previous assignment
+			// if that is the only one.
+			if info.vari.IsConstant() && info.vari.ConstantValue() == mkline.Value() &&
+				(mkline.Op() != opAssignDefault || len(prevWrites) == 1) {
 				s.onRedundant(prevWrites[len(prevWrites)-1], mkline)
 			}
 		}
